@@ -179,9 +179,9 @@ def race(kernel, seed, n_threads, fresh_ref=True):
     for th in ths:
         th.start()
     for th in ths:
-        th.join(600)
+        th.join(180)
         if th.is_alive():
-            viol.append(("first-use-race-hangs", f"{kernel}: a thread did not return from the first call within 600 s"))
+            viol.append(("first-use-race-hangs", f"{kernel}: a thread did not return from the first call within 180 s"))
             return viol
     undo_stall()
     try:
